@@ -36,8 +36,10 @@ type Encoder struct {
 	// path holds the values on the way down once the nesting is deeper than cycleCheckDepth
 	path      map[encodePathKey]struct{}
 	pathStack []encodePathKey
-	Writer    io.Writer
-	Error     error
+	// refused: a value has been refused as nested too deep and the encoder is still inside it
+	refused bool
+	Writer  io.Writer
+	Error   error
 }
 
 // NewEncoder create an encoder object.
@@ -143,12 +145,14 @@ type encodePathKey struct {
 // exhausted, and once it has refused it refuses everything below: going on would write the
 // rest of an infinite unfolding, one branch after the other.
 func (enc *Encoder) enter(v interface{}) bool {
-	if enc.Error == ErrNestedTooDeep {
+	if enc.refused {
+		// (inside the value that was refused: the next top-level value is written as ever,
+		// the error of this one stays with the encoder until its buffer is reset)
 		enc.WriteNil()
 		return false
 	}
 	if enc.depth >= maxEncodeDepth {
-		enc.Error = ErrNestedTooDeep
+		enc.Error, enc.refused = ErrNestedTooDeep, true
 		enc.WriteNil()
 		return false
 	}
@@ -163,7 +167,7 @@ func (enc *Encoder) enter(v interface{}) bool {
 					ok = false
 				} else {
 					enc.depth--
-					enc.Error = ErrNestedTooDeep
+					enc.Error, enc.refused = ErrNestedTooDeep, true
 					enc.WriteNil()
 					return false
 				}
@@ -192,6 +196,9 @@ func (enc *Encoder) leave(v interface{}) {
 		}
 	}
 	enc.depth--
+	if enc.depth == 0 {
+		enc.refused = false
+	}
 }
 
 // encodePathKeyOf identifies a value that can contain itself: a pointer, a map, a non-empty slice.
@@ -418,6 +425,7 @@ func (enc *Encoder) Reset() *Encoder {
 		delete(enc.path, k)
 	}
 	enc.pathStack = enc.pathStack[:0]
+	enc.refused = false
 	return enc
 }
 
